@@ -607,7 +607,7 @@ Proof.
   all: try (intros _ _ _; apply orb_true_iff in E6; destruct E6 as [E6|E6]; [now left | right];
             apply andb_true_iff in E6; destruct E6 as [E6a E6b]; split; [now apply Bool.eqb_prop | now apply mem_In]).
   all: try (intro Hq; discriminate Hq).
-  Show.
+  all: try (exfalso; match goal with Hq : v13 = v12 |- _ => discriminate Hq end).
   all: try (intro Hc; subst; cbn in Eenc; now apply negb_false_iff in Eenc).
 Qed.
 
@@ -642,7 +642,9 @@ Record in_policy_conn (ck sk : conn) (o : outcome) : Prop := {
              fits_key (c_key (k_cfg sk)) (o_suite o) = true /\ s_supports (o_suite o) (o_version o) = true;
   ip_group : o_group o <> 0 -> In (o_group o) (k_curves ck) /\ In (o_group o) (k_curves sk);
   ip_sig : o_sig o <> 0 -> In (o_sig o) (k_sigs ck) /\ In (o_sig o) (k_sigs sk) /\
-                           sig_fits (o_version o =? v13) (c_key (k_cfg sk)) (o_sig o) = true;
+                           sig_fits (o_version o =? v13) (o_server_key o) (o_sig o) = true;
+  ip_server_key : o_server_key o = 0 \/ o_server_key o = c_key (k_cfg sk) \/
+                  (o_server_key o = c_key2 (k_cfg sk) /\ has_alt (k_cfg sk) = true /\ c_sni (k_cfg ck) = true);
   ip_csig : o_csig o <> 0 -> In (o_csig o) (k_sigs sk) /\ (k_sigs ck = [] \/ In (o_csig o) (k_sigs ck)) /\
                              sig_fits (o_version o =? v13) (c_key (k_cfg ck)) (o_csig o) = true;
   ip_chain : o_server_cert o = true -> o_resumed o = false ->
@@ -715,6 +717,16 @@ Definition client_tail12 (ck sk : conn) (h : hello) (f : server_flight) : result
   lift Client (client12 ck sk csuites h f) (fun o =>
   lift Server (server_finish false sk ck o) Ok)).
 
+Lemma presented_key_cases (ck : conn) (s : cfg) (h : hello) :
+  (h = client_hello13 ck \/ exists b, h = client_hello12 ck b) ->
+  presented_key s h = c_key s \/
+  (presented_key s h = c_key2 s /\ has_alt s = true /\ c_sni (k_cfg ck) = true).
+Proof.
+  intro Hh. unfold presented_key, presents_alt.
+  assert (Hs : h_sni h = c_sni (k_cfg ck)) by (destruct Hh as [Hh|[b Hh]]; subst h; reflexivity).
+  rewrite Hs. destruct (c_sni (k_cfg ck)); cbn; [|now left]. destruct (has_alt s); [right; auto | now left].
+Qed.
+
 Lemma tail13_policy ck sk h f o ss :
   (h = client_hello13 ck \/ exists b, h = client_hello12 ck b) ->
   in_range (k_min sk) (k_max sk) v13 = true ->
@@ -723,32 +735,34 @@ Lemma tail13_policy ck sk h f o ss :
 Proof.
   intros Hh Hsv Hss Hf H. unfold client_tail13 in H. cbv zeta in H.
   destruct (hello_fields ck h Hh) as [F1 [F2 [F3 [F4 [F5 [F6 F7]]]]]].
-  destruct Hf as [S1 S2 S3 S4 S5 S6 S7 S8 S9 S10 S11].
   apply lift_ok in H. destruct H as [cv [Hcv H]].
   destruct (nonempty (filter_for_version v13 (k_suites ck))); cbn [negb] in H; [|discriminate].
   apply lift_ok in H. destruct H as [o1 [Ho1 H]].
   apply lift_ok in H. destruct H as [o2 [Ho2 H]]. inversion H; subst o2; clear H.
   apply server_finish_ok in Ho2. subst o1.
-  destruct S10 as [R1 [R2 [R3 R4]]].
-  apply (client13_spec ck sk _ h f o S8 R1 R2) in Ho1.
-  destruct Ho1 as [C [Cg [Cee [Csig [Csigin Cenc]]]]]. destruct C.
+  destruct (s13_flags _ _ _ _ Hf) as [R1 [R2 [R3 R4]]].
+  apply (client13_spec ck sk _ h f o (s13_alpn _ _ _ _ Hf) R1 R2) in Ho1.
+  destruct Ho1 as [C [Cg [Cee [Csig [Csigin Cenc]]]]].
   apply of_opt_ok in Hcv. apply select_version_some in Hcv. destruct Hcv as [Hin Hcr].
   destruct Hin as [Hin|[]]. subst cv.
-  destruct cl_suite0 as [Q1 [Q2 Q3]]. apply filter_for_version_In in Q2. destruct Q2 as [Q2 _].
-  destruct (Hss _ S2) as [S2a S2k].
-  destruct S4 as [G1 [G2 [gs [G3 G4]]]]. destruct S5 as [T1 [T2 [T3 T4]]].
-  constructor; rewrite ?cl_version0, ?Q1, ?cl_group0, ?Csig, ?cl_alpn0.
+  destruct (cl_suite _ _ _ _ _ _ _ C) as [Q1 [Q2 Q3]]. apply filter_for_version_In in Q2. destruct Q2 as [Q2 _].
+  destruct (Hss _ (s13_suite_local _ _ _ _ Hf)) as [S2a S2k].
+  destruct (s13_group _ _ _ _ Hf) as [G1 [G2 [gs [G3 G4]]]]. destruct (s13_sig _ _ _ _ Hf) as [T1 [T2 [T3 T4]]].
+  destruct (s13_key _ _ _ _ Hf) as [K1 K2].
+  constructor; rewrite ?(cl_version _ _ _ _ _ _ _ C), ?Q1, ?(cl_group _ _ _ _ _ _ _ C), ?Csig, ?(cl_alpn _ _ _ _ _ _ _ C),
+    ?(cl_server_key _ _ _ _ _ _ _ C).
   - now split.
   - repeat split; assumption.
   - intros _. split; [exact (hello_groups_client ck h _ gs Hh G3 G4) | exact G1].
   - intros _. repeat split; assumption.
-  - intro Hn. destruct (cl_csig0 Hn) as [X1 [X2 [_ X3]]]. repeat split; assumption.
-  - intros Hc Hr. apply cl_chain0; [exact Hc | exact Hr | now right].
-  - intro Hn. destruct (cl_srtp0 Hn) as [Y1 [Y2 _]]. split; [exact Y2|].
-    rewrite Y1 in *. now destruct (S6 Hn) as [Z _].
-  - rewrite S8. congruence.
-  - intros _. rewrite cl_ems0. reflexivity.
-  - destruct cl_exts0 as [X1 [X2 X3]]. rewrite X1, X2. now apply exts_subset.
+  - right. rewrite K1. exact (presented_key_cases ck (k_cfg sk) h Hh).
+  - intro Hn. destruct (cl_csig _ _ _ _ _ _ _ C Hn) as [X1 [X2 [_ X3]]]. repeat split; assumption.
+  - intros Hc Hr. destruct (cl_chain _ _ _ _ _ _ _ C Hc Hr (or_intror eq_refl)) as [X|[_ X]]; auto.
+  - intro Hn. destruct (cl_srtp _ _ _ _ _ _ _ C Hn) as [Y1 [Y2 _]]. split; [exact Y2|].
+    rewrite Y1 in *. now destruct (s13_srtp _ _ _ _ Hf Hn) as [Z _].
+  - rewrite (s13_alpn _ _ _ _ Hf). congruence.
+  - intros _. rewrite (cl_ems _ _ _ _ _ _ _ C). reflexivity.
+  - destruct (cl_exts _ _ _ _ _ _ _ C) as [X1 [X2 X3]]. rewrite X1, X2. now apply exts_subset.
 Qed.
 
 Lemma tail12_policy ck sk h f o ss :
@@ -759,38 +773,42 @@ Lemma tail12_policy ck sk h f o ss :
 Proof.
   intros Hh Hsv Hss Hf H. unfold client_tail12 in H. cbv zeta in H.
   destruct (hello_fields ck h Hh) as [F1 [F2 [F3 [F4 [F5 [F6 F7]]]]]].
-  destruct Hf as [S1 S2 S3 S4 S5 S5b S6 S7 S7b S7c S8 S9 S9b S10 S11 S12].
   apply lift_ok in H. destruct H as [cv [Hcv H]].
   destruct (nonempty (filter_for_version v12 (k_suites ck))); cbn [negb] in H; [|discriminate].
   apply lift_ok in H. destruct H as [o1 [Ho1 H]].
   apply lift_ok in H. destruct H as [o2 [Ho2 H]]. inversion H; subst o2; clear H.
   apply server_finish_ok in Ho2. subst o1.
-  apply client12_spec in Ho1. destruct Ho1.
+  apply client12_spec in Ho1. rename Ho1 into C.
   apply of_opt_ok in Hcv. apply select_version_some in Hcv. destruct Hcv as [Hin Hcr].
   destruct Hin as [Hin|[]]. subst cv.
-  destruct cl_suite0 as [Q1 [Q2 Q3]]. apply filter_for_version_In in Q2. destruct Q2 as [Q2 _].
-  destruct (Hss _ S2) as [S2a S2k].
-  destruct cl_flags0 as [K1 [K2 K3]].
-  constructor; rewrite ?cl_version0, ?Q1, ?cl_group0, ?cl_alpn0.
+  destruct (cl_suite _ _ _ _ _ _ _ C) as [Q1 [Q2 Q3]]. apply filter_for_version_In in Q2. destruct Q2 as [Q2 _].
+  destruct (Hss _ (s12_suite_local _ _ _ _ Hf)) as [S2a S2k].
+  destruct (cl_flags _ _ _ _ _ _ _ C) as [K1 [K2 K3]].
+  constructor; rewrite ?(cl_version _ _ _ _ _ _ _ C), ?Q1, ?(cl_group _ _ _ _ _ _ _ C), ?(cl_alpn _ _ _ _ _ _ _ C),
+    ?(cl_server_key _ _ _ _ _ _ _ C).
   - now split.
   - repeat split; assumption.
-  - intro Hn. destruct (S5 Hn) as [G1 [G2 G3]]. split; [|exact G1].
-    pose proof (suite_needs_group_ecc _ (S5b Hn)) as Hecc.
+  - intro Hn. destruct (s12_group _ _ _ _ Hf Hn) as [G1 [G2 G3]]. split; [|exact G1].
+    pose proof (suite_needs_group_ecc _ (s12_group_suite _ _ _ _ Hf Hn)) as Hecc.
     pose proof (F7 (ecc_exists _ _ Q2 Hecc)) as Hne.
     destruct (h_groups h) as [gs|] eqn:Eg; [|congruence].
     exact (hello_groups_client ck h _ gs Hh Eg (G3 gs eq_refl)).
-  - intro Hn. destruct (cl_sig0 Hn) as [X1 X2]. rewrite X1 in *. destruct (S6 Hn) as [Y1 Y2].
-    repeat split; assumption.
-  - intro Hn. destruct (cl_csig0 Hn) as [X1 [X2 [_ X3]]]. repeat split; assumption.
-  - intros Hc Hr. rewrite K2 in Hc. rewrite K1 in Hr. apply cl_chain0; [now rewrite K2 | now rewrite K1 |].
-    left. now destruct (S7 Hc) as [_ [Hauth _]].
-  - intro Hn. destruct (cl_srtp0 Hn) as [Y1 [Y2 _]]. split; [exact Y2|].
-    rewrite Y1 in *. now destruct (S7b Hn) as [Z _].
-  - intro Hn. destruct (S8 Hn) as [Z1 Z2]. rewrite F3 in Z2. now split.
-  - intros [He|He]; unfold requires_ems in He; [now apply cl_ems_required0|].
-    rewrite cl_ems0. cbn. pose proof (S9 He) as Hx. rewrite Hx. cbn.
-    destruct (S9b Hx) as [Hh1 _]. rewrite F5 in Hh1. now rewrite (ems_requested_not_disable _ Hh1).
-  - destruct cl_exts0 as [X1 [X2 X3]]. rewrite X1, X2. now apply exts_subset.
+  - intro Hn. destruct (cl_sig _ _ _ _ _ _ _ C Hn) as [X1 X2]. rewrite X1 in *.
+    destruct (s12_sig _ _ _ _ Hf Hn) as [Y1 Y2]. repeat split; assumption.
+  - destruct (s12_key _ _ _ _ Hf) as [[Z _]|[Z _]]; [now left | right]. rewrite Z.
+    exact (presented_key_cases ck (k_cfg sk) h Hh).
+  - intro Hn. destruct (cl_csig _ _ _ _ _ _ _ C Hn) as [X1 [X2 [_ X3]]]. repeat split; assumption.
+  - intros Hc Hr. rewrite K2 in Hc. rewrite K1 in Hr.
+    assert (Ha : (s_auth (f_suite f) =? g11_auth_certificate) = true)
+      by (now destruct (s12_cert _ _ _ _ Hf Hc) as [_ [Hauth _]]).
+    destruct (cl_chain _ _ _ _ _ _ _ C) as [X|[_ X]]; try (now rewrite ?K1, ?K2); auto.
+  - intro Hn. destruct (cl_srtp _ _ _ _ _ _ _ C Hn) as [Y1 [Y2 _]]. split; [exact Y2|].
+    rewrite Y1 in *. now destruct (s12_srtp _ _ _ _ Hf Hn) as [Z _].
+  - intro Hn. destruct (s12_alpn _ _ _ _ Hf Hn) as [Z1 Z2]. rewrite F3 in Z2. now split.
+  - intros [He|He]; unfold requires_ems in He; [now apply (cl_ems_required _ _ _ _ _ _ _ C)|].
+    rewrite (cl_ems _ _ _ _ _ _ _ C). cbn. pose proof (s12_ems_required _ _ _ _ Hf He) as Hx. rewrite Hx. cbn.
+    destruct (s12_ems_ext _ _ _ _ Hf Hx) as [Hh1 _]. rewrite F5 in Hh1. now rewrite (ems_requested_not_disable _ Hh1).
+  - destruct (cl_exts _ _ _ _ _ _ _ C) as [X1 [X2 X3]]. rewrite X1, X2. now apply exts_subset.
 Qed.
 
 (* the version the server works in, as a function of the hello (prepareHandshakeStart / pickVersionFromClientHello) *)
@@ -987,15 +1005,21 @@ Proof.
   set (versions := if nonempty cv then cv else range).
   set (kv := curve_versions (c_curves c) range).
   destruct (nonempty (c_curves c) && negb (nonempty kv)); [discriminate|].
-  destruct (inter versions kv) as [|hi t] eqn:Ei; [discriminate|].
+  set (vs := if negb (c_psk c) || negb (c_key c =? 0) then inter versions kv
+             else filter (fun v => negb (v =? v13)) (inter versions kv)).
+  assert (Hvs_sub : forall v, In v vs -> In v (inter versions kv)).
+  { intros v Hv. subst vs. destruct (negb (c_psk c) || negb (c_key c =? 0)); [exact Hv | now apply filter_In in Hv]. }
+  assert (Hvs_sorted : StronglySorted (fun x y => y <= x) (inter versions kv) -> StronglySorted (fun x y => y <= x) vs).
+  { intro Hs. subst vs. destruct (negb (c_psk c) || negb (c_key c =? 0)); [exact Hs | now apply filter_sorted]. }
+  destruct vs as [|hi t] eqn:Ei; [discriminate|].
   intro H. inversion H; subst mn mx; clear H.
   assert (Hsorted_range : StronglySorted (fun x y => y <= x) range)
     by (apply filter_sorted, version_order_sorted).
   assert (Hsorted : StronglySorted (fun x y => y <= x) (hi :: t)).
-  { rewrite <- Ei. unfold inter. apply filter_sorted. subst versions.
+  { apply Hvs_sorted. unfold inter. apply filter_sorted. subst versions.
     destruct (nonempty cv); [now apply suite_versions_sorted | exact Hsorted_range]. }
   assert (Hsub : forall v, In v (hi :: t) -> In v range).
-  { intros v Hv. rewrite <- Ei in Hv. apply inter_In in Hv. destruct Hv as [Hv _]. subst versions.
+  { intros v Hv. apply Hvs_sub in Hv. apply inter_In in Hv. destruct Hv as [Hv _]. subst versions.
     destruct (nonempty cv); [now apply suite_versions_sub in Hv | exact Hv]. }
   assert (Hval : forall v, In v range -> (v = v12 \/ v = v13) /\ version_allowed c v).
   { intros v Hv. apply supported_versions_spec in Hv. destruct Hv as [Ho Hr].
@@ -1092,7 +1116,9 @@ Record in_policy (c s : cfg) (o : outcome) : Prop := {
               fits_key (c_key s) (o_suite o) = true /\ s_supports (o_suite o) (o_version o) = true;
   pol_group : o_group o <> 0 -> In (o_group o) (eff_curves c) /\ In (o_group o) (eff_curves s);
   pol_sig : o_sig o <> 0 -> sig_allowed c (o_sig o) /\ sig_allowed s (o_sig o) /\
-                            sig_fits (o_version o =? v13) (c_key s) (o_sig o) = true;
+                            sig_fits (o_version o =? v13) (o_server_key o) (o_sig o) = true;
+  pol_server_key : o_server_key o = 0 \/ o_server_key o = c_key s \/
+                   (o_server_key o = c_key2 s /\ has_alt s = true /\ c_sni c = true);
   pol_csig : o_csig o <> 0 -> sig_allowed c (o_csig o) /\ sig_allowed s (o_csig o) /\
                               sig_fits (o_version o =? v13) (c_key c) (o_csig o) = true;
   pol_srtp : o_srtp o <> 0 -> In (o_srtp o) (c_srtp c) /\ In (o_srtp o) (c_srtp s);
@@ -1114,7 +1140,7 @@ Proof.
   intro H. inversion H as [H1]; clear H.
   apply build_spec in Ec, Es.
   pose proof (in_policy_conn_holds ck sk seeded o (bf_wf _ _ Es) H1) as P.
-  destruct P as [P1 P2 P3 P4 P5 P6 P7 P8 P9 P10].
+  destruct P as [P1 P2 P3 P4 Pk P5 P6 P7 P8 P9 P10].
   pose proof (bf_cfg _ _ Ec) as Kc. pose proof (bf_cfg _ _ Es) as Ks. rewrite Kc, Ks in *.
   constructor.
   - destruct P1 as [A B]. split; [exact (version_allowed_range _ _ _ Ec A) | exact (version_allowed_range _ _ _ Es B)].
@@ -1122,6 +1148,7 @@ Proof.
   - intro Hn. destruct (P3 Hn) as [A B]. rewrite (bf_curves _ _ Ec) in A. rewrite (bf_curves _ _ Es) in B. now split.
   - intro Hn. destruct (P4 Hn) as [A [B C]]. repeat split; try assumption;
       [exact (bf_sigs _ _ Ec _ A) | exact (bf_sigs _ _ Es _ B)].
+  - exact Pk.
   - intro Hn. destruct (P5 Hn) as [A [B C]]. split; [|split; [exact (bf_sigs _ _ Es _ A) | exact C]].
     destruct B as [B|B]; [exfalso; exact (bf_sigs_nonempty _ _ Ec B) | exact (bf_sigs _ _ Ec _ B)].
   - exact P7.
@@ -1181,17 +1208,17 @@ Definition negotiation_alerts : list N :=
 (* ------------------------------------------------------------------ witnesses: where the property text does NOT hold *)
 
 Definition cfg_default : cfg :=
-  mkCfg 0 0 None false false 0 1027 0 false [] [] [] 0 [] [] [] None false false.
+  mkCfg 0 0 None false false 0 1027 0 false [] [] [] 0 [] [] [] None false false 0 false.
 
 Definition with_key (c : cfg) (k : N) : cfg :=
   mkCfg (c_min c) (c_max c) (c_suites c) (c_psk c) (c_hint c) k (c_chain_sig c) (c_client_auth c) (c_skip_verify c)
-        (c_curves c) (c_sigs c) (c_csigs c) (c_ems c) (c_srtp c) (c_mki c) (c_alpn c) (c_cid c) (c_store c) (c_skip_hv c).
+        (c_curves c) (c_sigs c) (c_csigs c) (c_ems c) (c_srtp c) (c_mki c) (c_alpn c) (c_cid c) (c_store c) (c_skip_hv c) (c_key2 c) (c_sni c).
 
 (* (1) "fails on both sides with an alert": a server whose suite list does not fit its own key type
    gives up in HandshakeContext without sending anything *)
 Definition w_silent_c : cfg := cfg_default.
 Definition w_silent_s : cfg :=
-  mkCfg 0 0 (Some [49199]) false false 1 1027 0 false [] [] [] 0 [] [] [] None false false.
+  mkCfg 0 0 (Some [49199]) false false 1 1027 0 false [] [] [] 0 [] [] [] None false false 0 false.
 
 Theorem failure_without_alert_refuted :
   exists c s, negotiate c s false = Some (Silent Server) /\
@@ -1226,9 +1253,9 @@ Qed.
 (* ... and a DTLS 1.3 server with an RSA key completes, signing with RSA-PSS (the client's preference order
    over the common schemes decides: rsa_pss_rsae_sha256 for two default lists) *)
 Definition w_rsa13_c : cfg :=
-  mkCfg 3 3 None false false 0 1027 0 false [] [] [] 0 [] [] [] None false false.
+  mkCfg 3 3 None false false 0 1027 0 false [] [] [] 0 [] [] [] None false false 0 false.
 Definition w_rsa13_s : cfg :=
-  mkCfg 3 3 None false false 3 1027 0 false [] [] [] 0 [] [] [] None false false.
+  mkCfg 3 3 None false false 3 1027 0 false [] [] [] 0 [] [] [] None false false 0 false.
 
 Theorem rsa_dtls13_completes_with_pss :
   exists o, negotiate w_rsa13_c w_rsa13_s false = Some (Ok o) /\ o_version o = v13 /\ o_sig o = 2052.
@@ -1266,9 +1293,9 @@ Qed.
    the positive statement is the [pol_csig] clause of [in_policy].  The former witness pair now signs with a
    scheme of the client's own list (ecdsa_secp384r1_sha384, the first of the server's list the client allows) *)
 Definition w_csig_c : cfg :=
-  mkCfg 0 0 None false false 2 1027 0 true [] [1283; 2055] [] 0 [] [] [] None false false.
+  mkCfg 0 0 None false false 2 1027 0 true [] [1283; 2055] [] 0 [] [] [] None false false 0 false.
 Definition w_csig_s : cfg :=
-  mkCfg 0 0 None false false 1 1027 2 false [] [] [] 0 [] [] [] None false false.
+  mkCfg 0 0 None false false 1 1027 2 false [] [] [] 0 [] [] [] None false false 0 false.
 
 Theorem client_signature_within_both_policies c s seeded o :
   negotiate c s seeded = Some (Ok o) -> o_csig o <> 0 ->
@@ -1286,9 +1313,9 @@ Proof. exact (common_sigs_In remote local x). Qed.
 
 (* (4) ALPN on DTLS 1.3: disjoint lists complete, nothing is negotiated *)
 Definition w_alpn_c : cfg :=
-  mkCfg 3 3 None false false 0 1027 0 false [] [] [] 0 [] [] [1] None false false.
+  mkCfg 3 3 None false false 0 1027 0 false [] [] [] 0 [] [] [1] None false false 0 false.
 Definition w_alpn_s : cfg :=
-  mkCfg 3 3 None false false 1 1027 0 false [] [] [] 0 [] [] [2] None false false.
+  mkCfg 3 3 None false false 1 1027 0 false [] [] [] 0 [] [] [2] None false false 0 false.
 
 Theorem alpn_disjoint_completes_on_dtls13_refuted :
   exists c s o, negotiate c s false = Some (Ok o) /\ c_alpn c <> [] /\ c_alpn s <> [] /\
@@ -1303,8 +1330,8 @@ Qed.
 (* ... whereas on DTLS 1.2 the same lists are refused with no_application_protocol *)
 Theorem alpn_disjoint_refused_on_dtls12 :
   negotiate (with_key cfg_default 0) (with_key cfg_default 1) false <> None /\
-  negotiate (mkCfg 0 0 None false false 0 1027 0 false [] [] [] 0 [] [] [1] None false false)
-            (mkCfg 0 0 None false false 1 1027 0 false [] [] [] 0 [] [] [2] None false false) false
+  negotiate (mkCfg 0 0 None false false 0 1027 0 false [] [] [] 0 [] [] [1] None false false 0 false)
+            (mkCfg 0 0 None false false 1 1027 0 false [] [] [] 0 [] [] [2] None false false 0 false) false
   = Some (Fail Server g11_alert_no_application_protocol).
 Proof. split; [vm_compute; discriminate | vm_compute; reflexivity]. Qed.
 
@@ -1314,8 +1341,8 @@ Theorem common_signature_scheme_yet_refused :
   exists c s x, negotiate c s false = Some (Fail Client g11_alert_insufficient_security) /\
                 sig_allowed c x /\ sig_allowed s x /\ sig_fits false (c_key s) x = true.
 Proof.
-  exists (mkCfg 0 0 None false false 0 1027 0 false [] [1027] [] 0 [] [] [] None false false),
-         (mkCfg 0 0 None false false 2 1027 0 false [] [1283; 1027] [] 0 [] [] [] None false false), 1027.
+  exists (mkCfg 0 0 None false false 0 1027 0 false [] [1027] [] 0 [] [] [] None false false 0 false),
+         (mkCfg 0 0 None false false 2 1027 0 false [] [1283; 1027] [] 0 [] [] [] None false false 0 false), 1027.
   split; [vm_compute; reflexivity|]. unfold sig_allowed. cbn. repeat split; auto. 
 Qed.
 
@@ -1327,7 +1354,11 @@ Lemma server12_suite_choice k ss h r f :
   first_common (filter (fun x => s_supports x v12) (filter known_suite (h_suites h))) ss = Some (f_suite f).
 Proof.
   unfold server12. cbv zeta. intro H.
-  rstepn H u0 E. rstepn H suite E0. rstepn H group E1. rstepn H u2 E2. rstepn H tr E3.
+  rstepn H ch E00. destruct ch as [[suite group] ems0]. cbn beta iota in H.
+  unfold hello12_choices in E00. cbv zeta in E00.
+  rstepn E00 u0 E. rstepn E00 suite' E0. rstepn E00 group' E1. rstepn E00 u2 E2.
+  inversion E00; subst suite' group' ems0; clear E00.
+  rstepn H tr E3.
   destruct tr as [[profile echo] peer]. cbn beta iota in H.
   rstepn H proto E4. rstepn H u5 E5. apply of_opt_ok in E0. rewrite E0. f_equal.
   destruct (r && h_session h && c_store (k_cfg k)).
@@ -1343,14 +1374,14 @@ Lemma server13_choices k ss h f :
   (* key-exchange group: the SERVER's order on DTLS 1.3 *)
   first_common (k_curves k) (match h_groups h with Some g => g | None => [] end) = Some (f_group f) /\
   (* signature scheme: the client's order over the common schemes *)
-  select_sig true (inter (filter sig_known (h_sigs h)) (k_sigs k)) (c_key (k_cfg k)) = Some (f_sig f).
+  select_sig true (inter (filter sig_known (h_sigs h)) (k_sigs k)) (presented_key (k_cfg k) h) = Some (f_sig f).
 Proof.
   unfold server13. cbv zeta. intro H.
   rstepn H u0 E. rstepn H suite E0. rstepn H u1 E1. rstepn H u2 E2. rstepn H u3 E3.
   rstepn H group E4. rstepn H u5 E5. rstepn H u6 E6. rstepn H sg E7. rstepn H tr E8.
   destruct tr as [[profile echo] peer]. cbn beta iota in H.
   destruct (sig_encodable sg); cbn [negb] in H; [|discriminate].
-  inversion H; subst; clear H. cbn.
+  inversion H; subst; clear H. sfproj.
   apply of_opt_ok in E0, E4, E7. now repeat split.
 Qed.
 
@@ -1406,4 +1437,175 @@ Proof.
   - repeat split; intro Hn; try congruence.
     + destruct (c_cid (k_cfg ck)); [|congruence]. cbn [nonempty]. in_list.
     + destruct (nonempty (c_srtp (k_cfg ck))) eqn:E; [|congruence]. in_list.
+Qed.
+
+(* ------------------------------------------------------------------ the client against ANY answer (rogue or steered server) *)
+
+(* whatever ServerHello / ServerKeyExchange the DTLS 1.2 client is shown - [f] is arbitrary, it need not come
+   from [server12] - every parameter it ends up reporting is one of its OWN lists *)
+Theorem client12_within_own_policy ck sk cs h f o :
+  client12 ck sk cs h f = ROk o ->
+  In (o_suite o) cs /\
+  (o_alpn o <> 0 -> In (o_alpn o) (c_alpn (k_cfg ck))) /\
+  (o_srtp o <> 0 -> In (o_srtp o) (c_srtp (k_cfg ck))) /\
+  (o_sig o <> 0 -> In (o_sig o) (k_sigs ck)) /\
+  (o_resumed o = false -> s_ecdhe (o_suite o) = true ->
+     In (o_group o) (k_curves ck) /\ o_group o <> g11_curve_mlkem) /\
+  (c_ems (k_cfg ck) = g11_ems_require -> o_ems o = true).
+Proof.
+  intro H. apply client12_spec in H.
+  destruct (cl_suite _ _ _ _ _ _ _ H) as [Q1 [Q2 _]].
+  split; [now rewrite Q1|].
+  split; [exact (cl_alpn_own _ _ _ _ _ _ _ H)|].
+  split; [intro Hn; now destruct (cl_srtp _ _ _ _ _ _ _ H Hn) as [_ [Y _]]|].
+  split; [intro Hn; destruct (cl_sig _ _ _ _ _ _ _ H Hn) as [X1 X2]; now rewrite X1|].
+  split.
+  - intros Hr He. rewrite Q1 in He. exact (cl_group_own _ _ _ _ _ _ _ H eq_refl Hr He).
+  - intro He. apply (cl_ems_required _ _ _ _ _ _ _ H). rewrite He. apply N.eqb_refl.
+Qed.
+
+(* ------------------------------------------------------------------ hello verification: the first ClientHello cannot steer *)
+
+Lemma opt_eqb_refl {A} (eq : A -> A -> bool) (a : option A) : (forall x, eq x x = true) -> opt_eqb eq a a = true.
+Proof. intro H. destruct a; cbn; auto. Qed.
+
+Lemma bytes_eqb_refl a : bytes_eqb a a = true.
+Proof. now apply bytes_eqb_eq. Qed.
+
+Lemma hv_consistent_refl h : hv_consistent h h = true.
+Proof.
+  unfold hv_consistent. rewrite N.eqb_refl, bytes_eqb_refl, !Bool.eqb_reflx. cbn.
+  rewrite (opt_eqb_refl bytes_eqb (h_cid h) bytes_eqb_refl). cbn.
+  apply opt_eqb_refl. intros [a b]. cbn. now rewrite !bytes_eqb_refl.
+Qed.
+
+(* an untouched first hello: the two-step processing is the one-step processing *)
+Lemma server12_verified_same k ss h r : server12_verified k ss h h r = server12 k ss h r.
+Proof.
+  unfold server12_verified, server12. cbv zeta.
+  destruct (hello12_choices k ss h) as [[[suite group] ems]| |]; cbn [rbind]; try reflexivity.
+  now rewrite hv_consistent_refl.
+Qed.
+
+(* whatever the first hello was made to say, an answer is the answer to the hello that echoes the cookie *)
+Lemma server12_verified_final k ss h1 h2 r f :
+  server12_verified k ss h1 h2 r = ROk f -> server12 k ss h2 r = ROk f.
+Proof.
+  unfold server12_verified. intro H. rstepn H u0 E0. rstepn H u1 E1. exact H.
+Qed.
+
+Lemma steer_flight_none f : steer_flight no_steering f = f.
+Proof. reflexivity. Qed.
+
+(* C11 on an association whose FIRST ClientHello was rewritten on path (supported_groups, ALPN offer,
+   extended_master_secret, server_name): if it completes, it completes exactly as the untouched association *)
+Theorem first_hello_steering_harmless ck sk seeded t o :
+  t_sh_alpn t = 0 ->
+  negotiate12_steered ck sk seeded true t = Ok o ->
+  negotiate12_steered ck sk seeded true no_steering = Ok o.
+Proof.
+  intros Ht. unfold negotiate12_steered. cbv zeta.
+  destruct (nonempty (filter_for_version v12 (filter_for_key (c_key (k_cfg sk)) (k_suites sk)))); cbn [negb]; [|discriminate].
+  set (h2 := client_hello12 ck (seeded && c_store (k_cfg ck) && true)).
+  intro H. apply lift_ok in H. destruct H as [f0 [Hf H]].
+  apply server12_verified_final in Hf.
+  assert (Hs : steer_flight t f0 = f0) by (unfold steer_flight; now rewrite Ht).
+  rewrite Hs in H.
+  change (steer_hello no_steering h2) with h2.
+  rewrite server12_verified_same, Hf. cbn [lift]. exact H.
+Qed.
+
+(* without steering the DTLS 1.2 composition is the general one *)
+Theorem negotiate12_unsteered ck sk seeded hv :
+  stack_of ck = Only12 -> stack_of sk = Only12 ->
+  negotiate12_steered ck sk seeded hv no_steering = negotiate_conn ck sk seeded.
+Proof.
+  intros Hc Hs. unfold negotiate12_steered, negotiate_conn. cbv zeta. rewrite Hc, Hs. cbn [lift].
+  change (v12 =? v13) with false. cbv iota.
+  destruct (nonempty (filter_for_version v12 (filter_for_key (c_key (k_cfg sk)) (k_suites sk)))); cbn [negb]; [|reflexivity].
+  set (h2 := client_hello12 ck (seeded && c_store (k_cfg ck) && true)).
+  change (steer_hello no_steering h2) with h2.
+  assert (Hsame : (if hv then server12_verified sk (filter_for_version v12 (filter_for_key (c_key (k_cfg sk)) (k_suites sk))) h2 h2 seeded
+                   else server12 sk (filter_for_version v12 (filter_for_key (c_key (k_cfg sk)) (k_suites sk))) h2 seeded)
+                  = server12 sk (filter_for_version v12 (filter_for_key (c_key (k_cfg sk)) (k_suites sk))) h2 seeded).
+  { destruct hv; [apply server12_verified_same | reflexivity]. }
+  destruct hv; rewrite ?server12_verified_same;
+    (destruct (server12 sk _ h2 seeded) as [f| |] eqn:Ef; cbn [lift]; try reflexivity;
+     rewrite steer_flight_none;
+     rewrite (s12_exts _ _ _ _ (server12_spec _ _ _ _ _ Ef)); cbn [req lift]; reflexivity).
+Qed.
+
+(* ------------------------------------------------------------------ two certificates: the suite filter and the certificate sent disagree *)
+
+(* with ONE certificate the suite fits the key of the certificate the server presents *)
+Theorem suite_fits_presented_key_single_certificate c s seeded o :
+  negotiate c s seeded = Some (Ok o) -> c_key2 s = 0 -> fits_key (o_server_key o) (o_suite o) = true.
+Proof.
+  intros H H2. apply in_policy_holds in H.
+  destruct (pol_suite _ _ _ H) as [_ [_ [Hf _]]].
+  destruct (pol_server_key _ _ _ H) as [K|[K|[_ [K _]]]].
+  - rewrite K. unfold fits_key. cbn. now rewrite orb_true_r.
+  - now rewrite K.
+  - unfold has_alt in K. rewrite H2 in K. cbn in K. now rewrite andb_false_r in K.
+Qed.
+
+(* with TWO certificates it need not: HandshakeContext filters the suites with the DEFAULT certificate (empty
+   server name), flight4Generate sends the one the client's server name selects.  ECDSA default + RSA for the
+   second name, client asking for the second name, default lists: ECDHE_ECDSA suite, RSA certificate and an
+   RSA-signed ServerKeyExchange *)
+Definition w_sni_c : cfg :=
+  mkCfg 0 0 None false false 0 1027 0 false [] [] [] 0 [] [] [] None false false 0 true.
+Definition w_sni_s : cfg :=
+  mkCfg 0 0 None false false 2 1027 0 false [] [] [] 0 [] [] [] None false false 3 false.
+
+Theorem suite_does_not_fit_presented_certificate_refuted :
+  exists c s o, negotiate c s false = Some (Ok o) /\
+                o_server_key o = 3 /\ fits_key (o_server_key o) (o_suite o) = false /\
+                sig_fits false 3 (o_sig o) = true.
+Proof.
+  exists w_sni_c, w_sni_s.
+  destruct (negotiate w_sni_c w_sni_s false) as [[o| |]|] eqn:E; try (vm_compute in E; discriminate).
+  exists o. split; [reflexivity|]. vm_compute in E. inversion E; subst o. cbn. repeat split; vm_compute; reflexivity.
+Qed.
+
+(* mirror: a client that offers only ECDHE_RSA suites for that name is refused (insufficient_security) although
+   a suite both sides enable fits the key of the certificate that name selects *)
+Theorem refused_although_suite_fits_sni_certificate_refuted :
+  exists c s x, negotiate c s false = Some (Fail Server g11_alert_insufficient_security) /\
+                suite_enabled c x /\ suite_enabled s x /\ c_sni c = true /\ fits_key (c_key2 s) x = true.
+Proof.
+  exists (mkCfg 0 0 (Some [49199; 49200]) false false 0 1027 0 false [] [] [] 0 [] [] [] None false false 0 true),
+         w_sni_s, 49199.
+  split; [vm_compute; reflexivity|]. unfold suite_enabled.
+  repeat split; try (vm_compute; reflexivity); cbn; intuition auto.
+Qed.
+
+(* ------------------------------------------------------------------ EMS policy and resumed sessions *)
+
+(* for a full handshake the session's master secret has the EMS property exactly when the flag says so ... *)
+Lemma session_ems_full o b : o_resumed o = false -> session_ems o b = o_ems o.
+Proof. unfold session_ems. now intros ->. Qed.
+
+(* ... hence "a side that requires EMS never completes without it" for every NON-resumed association *)
+Theorem ems_required_holds_without_resumption c s seeded o b :
+  negotiate c s seeded = Some (Ok o) -> o_resumed o = false ->
+  requires_ems c = true \/ requires_ems s = true -> session_ems o b = true.
+Proof.
+  intros H Hr He. rewrite (session_ems_full _ _ Hr). apply in_policy_holds in H. exact (pol_ems _ _ _ H He).
+Qed.
+
+(* but the decision to resume never looks at how the stored secret was derived (Session{ID, Secret}): a server
+   that REQUIRES extended master secret resumes a session negotiated without it *)
+Definition w_ems_c : cfg :=
+  mkCfg 0 0 None false false 0 1027 0 false [] [] [] 0 [] [] [] None true false 0 false.
+Definition w_ems_s : cfg :=
+  mkCfg 0 0 None false false 1 1027 0 false [] [] [] 1 [] [] [] None true false 0 false.
+
+Theorem ems_required_resumes_session_without_ems_refuted :
+  exists c s o, negotiate c s true = Some (Ok o) /\ requires_ems s = true /\ o_resumed o = true /\
+                o_ems o = true /\ session_ems o false = false.
+Proof.
+  exists w_ems_c, w_ems_s.
+  destruct (negotiate w_ems_c w_ems_s true) as [[o| |]|] eqn:E; try (vm_compute in E; discriminate).
+  exists o. split; [reflexivity|]. vm_compute in E. inversion E; subst o. repeat split.
 Qed.
